@@ -7,7 +7,7 @@ mathematical Ints constrained to their machine range; wrapping operations apply
 panic path.  Enum variants are always concrete on a path (stubs that return a
 symbolic Option/Result fork explicitly).  Anything not modelled raises Unsupported
 and the query is reported inconclusive - never as holding."""
-import re, copy, itertools, time
+import re, copy, itertools, time, os
 import z3
 from . import mirparse as P
 
@@ -204,6 +204,7 @@ class Executor:
         self.functions_entered = set()
         self._derived = {}
         self._varcache = {}
+        self.divcache_on = False     # shared (q, r) naming of x / c and x % c: helps base-26 chains (C32), hurts digit-stripping loops (C34)
         self.overrides = {}
         self.ordinals_src = "/repo/crates/ordinals/src"
         self.src_root = ""
@@ -679,7 +680,7 @@ class Executor:
                 else:
                     b, cb = ub, True
             za, zb = zint(a), zint(b)
-            if cb and b > 0:
+            if cb and b > 0 and self.divcache_on:
                 # unsigned division by a positive constant: one shared (q, r) pair per
                 # dividend with the linear characterisation a = c*q + r, 0 <= r < c
                 key = (za.get_id(), int(b))
